@@ -175,4 +175,24 @@ def run(prog):
         if n:
             report[f.name] = sorted({b.get("inl_from") for b in f.blocks if b.get("inl_from")})
     prog.raw = pristine
+    # helpers whose every call site was inlined are now represented inside their callers: drop their stand-alone bodies so that
+    # inventories and per-function rules do not see the same statements twice (or in a function no rule knows)
+    still = set()
+    for f in prog.fns.values():
+        for _, t in f.calls():
+            g = prog.callee_fn(t)
+            if g is not None:
+                still.add(g.id)
+        for b in f.blocks:
+            for st in b["stmts"]:
+                op = st["rhs"].get("ops", [])
+                for o in op:
+                    if o.get("k") == "const" and o.get("fnid") in prog.fns:
+                        still.add(o["fnid"])
+    prog.removed_helpers = []
+    for h in helpers:
+        if h.id not in still:
+            prog.removed_helpers.append(h.name)
+            del prog.fns[h.id]
+            prog.by_name.pop(h.name, None)
     return report
